@@ -28,7 +28,8 @@ RULE = ("normalised monotonic smooth decomposable circuits (generator harness/ge
         "weight m; Hadamard / CP-T: union over all inputs; Kronecker / Tucker: mixed-radix digits; inputs: own column only, value in "
         "the domain), (b) the returned rows are the root's rows, (c) frequencies of the drawn columns vs the weight rows and "
         "(d) of the returned assignments vs the exact probabilities computed by the Lean evaluator, within 6 standard "
-        "deviations, and no sample with probability zero; non-trivial = distinct (spec, flags)")
+        "deviations, and no sample with probability zero, (e) for plain compilations the returned rows vs the model's "
+        "propagate / follow (Model/Sample.lean) run on the recorded draws; non-trivial = distinct (spec, flags)")
 
 OPTS = dict(leaf_kinds=["cat_probs", "cat_probs", "cat_softmax", "bin_probs", "bin_logits"],
             weight_pz=["softmax"], units=[1, 2, 3], kout=1, nout=1, inner_outputs=False)
@@ -58,7 +59,12 @@ class Rec:
 def instrumented_sample(tc, N: int, seed: int):
     q = SamplingQuery(tc)
     rec = Rec()
-    orig = q._layer_fn
+    orig = getattr(q, "_layer_fn", None)
+    if orig is None:  # refactored away: only the statistical part of the check remains
+        torch.manual_seed(seed)
+        with torch.no_grad():
+            samples, mixtures = q(N)
+        return samples, mixtures, None
 
     def spy(layer, *inputs, num_samples, mixture_samples):
         before = len(mixture_samples)
@@ -184,14 +190,18 @@ def run_scenario(run: Run, scen: dict, rng: random.Random):
         # columns are indexed by position in the scope in the returned tensor; nothing further is specified
         run.feature("scope_gaps_survived", True)
     # (a) per-layer equations
-    bad, nchecks, draws = local_checks(rec, N, D, doms, vs)
+    if rec is None:
+        run.feature("unobservable", "SamplingQuery._layer_fn")
+        bad, nchecks, draws = None, 0, []
+    else:
+        bad, nchecks, draws = local_checks(rec, N, D, doms, vs)
     run.evaluations += nchecks
     if bad:
         run.violation("sampling-scope-gaps" if gaps else bad[0], scen, f"{bad[1]} (fold={fold}, optimize={optimize})")
         return
     run.exact += nchecks
     # (b) the returned rows are the rows of unit 0 of the first output
-    root = rec.calls[-1][2]
+    root = rec.calls[-1][2] if rec is not None else samples
     # evaluate() stacks the outputs: (O, K, N, D) for a single output with one unit, fold 0
     if not torch.equal(samples, root[0, 0] if root.dim() == 4 else samples):
         run.violation("returned-rows", scen, "the returned samples are not the rows of the output unit")
@@ -219,6 +229,42 @@ def run_scenario(run: Run, scen: dict, rng: random.Random):
             for v, val in zip(vs, a):
                 r[v] = val
             rows.append(r)
+        # (e) the model's propagate / follow (Model/Sample.lean; C15.propagate_eq_follow, follow_complete) on the
+        #     recorded draws: plain compilation only, where compiled layers are the symbolic layers in order
+        if rec is not None and not fold and not optimize and len(rec.calls) == len(mc.ser["layers"]):
+            M = min(N, 200)
+            draws = []
+            kinds = {"sum": TorchSumLayer, "had": TorchHadamardLayer, "kron": TorchKroneckerLayer}
+            aligned = all(isinstance(call[0], kinds.get(d["t"], TorchInputLayer)) and
+                          (d["t"] in kinds or vs[int(call[0].scope_idx[0, 0])] == d["v"])
+                          for d, call in zip(mc.ser["layers"], rec.calls))
+            if not aligned:
+                run.feature("unobservable", "compiled layer order")
+            for li, (layer, inputs, out, mix) in enumerate(rec.calls if aligned else []):
+                if isinstance(layer, TorchInputLayer):
+                    col = int(layer.scope_idx[0, 0])
+                    draws.append({"layer": li, "samples": [[int(out[0, r, n, col]) for r in range(out.shape[1])] for n in range(M)]})
+                elif mix is not None:
+                    draws.append({"layer": li, "samples": [[int(mix[0, r, n]) for r in range(mix.shape[1])] for n in range(M)]})
+            r = None
+            if aligned:
+                try:
+                    r = mc.d.call({"cmd": "sample_propagate", "id": mc.cid, "vars": vs, "draws": draws})
+                except Exception as e:  # noqa: BLE001
+                    run.violation("model-propagate", scen, f"the model rejects the recorded draws: {e}", no_failing_input=True,
+                                  broken="correspondence: Model/Sample.lean propagate vs SamplingQuery")
+                    return
+            for n in range(M if r is not None else 0):
+                run.evaluations += 1
+                got = [int(x) for x in samples[n].tolist()]
+                if not (r["fits"][n] and r["agree"][n]) or r["rows"][n] != got:
+                    run.violation("propagate-mismatch", dict(scen, sample=n),
+                                  f"sample {n}: SamplingQuery returns {got}, the model's propagation of the recorded draws gives {r['rows'][n]} "
+                                  f"(top-down walk {r['follow'][n]}, draws fit: {r['fits'][n]})")
+                    return
+                run.exact += 1
+            if r is not None:
+                run.feature("model_propagate_compared", True)
         m = mc.eval(theta, rows)
         probs = {tuple(r[v] for v in vs): float(m[i][0][0]) for i, r in enumerate(rows)}
         tot = sum(probs.values())
@@ -270,7 +316,8 @@ def check(run: Run, tier: str, seed: int):
         if total > 600:
             run.feature("skipped_large_domain", True)
             continue
-        scen = {"spec": spec, "fold": srng.random() < 0.5, "optimize": srng.random() < 0.5, "N": N,
+        plain = i % 3 == 0
+        scen = {"spec": spec, "fold": (not plain) and srng.random() < 0.6, "optimize": (not plain) and srng.random() < 0.6, "N": N,
                 "torch_seed": srng.randrange(10 ** 6), "semiring": srng.choice(["sum-product", "lse-sum"])}
         feats = gen.spec_features(spec)
         run.case({"spec": spec, "f": scen["fold"], "o": scen["optimize"]}, nontrivial=feats["had"] + feats["kron"] > 0,
